@@ -26,7 +26,7 @@
      * shard views are contiguous chunks of the backing list in stable order; <= 1 shard => the index itself;
        a view mirrors search_tiered's scoring and tie-breaks; merge = (score desc, id asc), clamp k after merge.
    As implemented (the documentation is silent):
-     * a duplicate id is appended as one more entry (both are visible to a search, both may be returned);
+     * a duplicate id is appended as one more entry (both are visible to a search; a result lists an id once, its best row);
      * owner None sees everything; any string - also the string "any" - is a literal match on the owner field
        (T2 maps owner_scope "any" to None before it calls the index);
      * the window is inclusive (age = recent_days passes); recent_days <= 0 switches the window off;
@@ -111,9 +111,12 @@ Before(E, q, tb, j, i) ==
     \/ /\ VEq(q, E[j], E[i])
        /\ \/ Tab[E[j]].id < Tab[E[i]].id
           \/ (Tab[E[j]].id = Tab[E[i]].id /\ tb[j] < tb[i])
-TopK(E, q, S, k, tb) == LET r == TLCEval([i \in S |-> Cardinality({j \in S : Before(E, q, tb, j, i)})])
-                            kept == {i \in S : r[i] < k}
-                        IN SeqByRank(kept, r)
+\* (since repo fix 397ebc8 the k best are k DISTINCT ids: of several rows with one id only the best-ranked one counts)
+BestOfId(E, q, S, tb) == {i \in S : ~\E j \in S : Tab[E[j]].id = Tab[E[i]].id /\ Before(E, q, tb, j, i)}
+TopK(E, q, S0, k, tb) == LET S == BestOfId(E, q, S0, tb)
+                             r == TLCEval([i \in S |-> Cardinality({j \in S : Before(E, q, tb, j, i)})])
+                             kept == {i \in S : r[i] < k}
+                         IN SeqByRank(kept, r)
 
 \* the top-m clusters of the owner-visible part of the whole index E
 ClusterChoice(E, ow, q, m) ==
@@ -252,7 +255,8 @@ TopKOk ==
         LET el == Eligible(eps, 1..Len(eps), last.ow, last.q, last.tier, last.h, last.chosen)
             tb == [i \in 1..Len(eps) |-> TieKey(eps, last.tier, 0, i)]
         IN /\ RangeOf(R) \subseteq el
-           /\ \A i \in el \ RangeOf(R) : Len(R) = last.k /\ \A p \in 1..Len(R) : Before(eps, last.q, tb, R[p], i)
+           /\ \A i \in el \ RangeOf(R) : \/ (Len(R) = last.k /\ (\A p \in 1..Len(R) : Before(eps, last.q, tb, R[p], i)))
+                                           \/ (\E pp \in 1..Len(R) : Tab[eps[R[pp]]].id = Tab[eps[i]].id /\ Before(eps, last.q, tb, R[pp], i))
 PartitionOk ==
     Sharding =>
         LET n == Len(eps)
